@@ -3,4 +3,5 @@ CONSTANTS
   Configs <- ThoroughConfigs
   Seed = 200
   Shift = TRUE
-INVARIANTS Emit TypeOK PartyMatchesKeygen InverseMapping FinalContiguous OperatorOfSeat SameWallet SigningPartiesAreKeygenParties QuorumIsValid QuorumSigns NoWalletOnlyBelowQuorum ValidWhenWallet
+  NominalSize = FALSE
+INVARIANTS Emit TypeOK PartyMatchesKeygen InverseMapping FinalContiguous OperatorOfSeat SameWallet SigningPartiesAreKeygenParties QuorumIsValid QuorumSigns NoPhantomMembers QuorumRemains NoWalletOnlyBelowQuorum ValidWhenWallet
